@@ -36,7 +36,7 @@ theorem tables_tie :
     CQ.swapCorrections = [("RZ", .q1), ("RZ", .q2)] ∧
     CQ.paramAlias = [("sz", "epsmax"), ("sx", "deltamax")] ∧
     CQ.compileResetsPhase = true ∧ CQ.dropsZeroDuration = true ∧ CQ.handsBackPhase = true ∧
-    CQ.swapFlipsNegJ = true ∧ SCQ.rzxSigned = true ∧
+    CQ.swapFlipsNegJ = true ∧ SCQ.rzxSigned = true ∧ SCQ.rotFloor = true ∧
     CQ.nativeGates.all (fun n => (CQ.gateCompiler.lookup n).isSome) = true ∧
     SCQ.nativeGates.all (fun n => (SCQ.gateCompiler.lookup n).isSome) = true ∧
     (CQ.ctlSX_prefix, CQ.ctlSX_op, CQ.ctlSZ_prefix, CQ.ctlSZ_op, CQ.ctlG_prefix) = ("sx", "x", "sz", "z", "g") ∧
@@ -47,7 +47,7 @@ theorem tables_tie :
     CQ.labels 2 = ["sx0", "sx1", "sz0", "sz1", "g0", "g1"] ∧
     SCQ.labels 3 = ["sx0", "sx1", "sx2", "sy0", "sy1", "sy2", "sz0", "sz1", "sz2", "zx01", "zx10", "zx12", "zx21"] := by
   refine ⟨by decide, by decide, by decide, by decide, by decide, by decide, by decide, by decide, by decide, by decide,
-    by decide, by decide, by decide, ?_, by decide, by decide, by decide, by decide, by decide, by decide⟩
+    by decide, by decide, by decide, by decide, ?_, by decide, by decide, by decide, by decide, by decide, by decide⟩
   intro N n; exact ⟨rfl, rfl⟩
 
 /-! ## cavity QED: single-qubit rotations -/
@@ -252,8 +252,8 @@ theorem hann_envelope :
 
 /-- **RX(θ) / RY(θ) on qubit `t` of the superconducting processor, every θ, every device** (default `args`: Hann
 window, DRAG).  The main quadrature is on `sx<t>` (`sy<t>`), sampled from the envelope scaled with the strength
-`omega_single[t]` of THAT qubit (lowered for small angles when the source has the amplitude floor, fixes/C18-3.patch: the
-pulse is then never shorter than that of a quarter turn) and the area `θ/(2π)`, corrected by `dragX` with the anharmonicity `alpha[t]`; the
+`omega_single[t]` of THAT qubit (lowered for rotations below a quarter turn, fixes/C18-3.patch: the pulse of a non-zero
+rotation is never shorter than that of a quarter turn) and the area `θ/(2π)`, corrected by `dragX` with the anharmonicity `alpha[t]`; the
 Z quadrature on `sz<t>`; the derivative quadrature on `sy<t>` (for RX) resp. with the opposite sign on `sx<t>` (for
 RY).  With the control `π·X` (`π·Y`) on the qubit subspace, the envelope area gives exactly the gate.  (The DRAG
 corrections themselves — their effect on leakage and the change of the area by `−c³/(4α²)` — belong to the measured
@@ -264,7 +264,7 @@ theorem scq_rot_calibrated (H : SCQ.HW ℝ) (n t : Nat) (θ Ω α w : ℝ) (hn :
     SCQ.compileGate Real.pi H true n ⟨"RY", [t], [], θ⟩ = .ok ([scqDragInstr ⟨"RY", [t], [], θ⟩ "sy" "sx" true n t Ω α], none) ∧
     (∫ s in (0 : ℝ)..(SCQ.pulseDur (SCQ.windowTmax : ℝ) (SCQ.rotMax Ω (SCQ.rotArea Real.pi θ)) (SCQ.rotArea Real.pi θ)),
         envelope (SCQ.rotMax Ω (SCQ.rotArea Real.pi θ)) (SCQ.rotArea Real.pi θ) s) = θ / (2 * Real.pi) ∧
-    (SCQ.rotFloor = true → θ ≠ 0 →
+    (θ ≠ 0 →
       SCQ.pulseDur (SCQ.windowTmax : ℝ) (SCQ.rotMax Ω (SCQ.rotArea Real.pi θ)) (SCQ.rotArea Real.pi θ)
         = 2 * (max |θ / (2 * Real.pi)| (1 / 4) / |Ω|)) ∧
     prop (((SCQ.ctlSX_coef Real.pi * (θ / (2 * Real.pi)) : ℝ) : ℂ) • G.x_gate_) = G.rx_ θ ∧
@@ -279,7 +279,8 @@ theorem scq_rot_calibrated (H : SCQ.HW ℝ) (n t : Nat) (θ Ω α w : ℝ) (hn :
     simp only [scq_lookup_RY]
     rw [scq_rotation_drag_sy H _ n t [] Ω α w hn rfl hΩ hα hw]
   · rw [envelope_area _ _ (scq_rotMax_ne_zero Ω _ hΩ0), scq_rotArea_eq]
-  · intro hf hθ
+  · intro hθ
+    have hf : SCQ.rotFloor = true := by decide
     have ha : SCQ.rotArea Real.pi θ ≠ 0 := by
       rw [scq_rotArea_eq]; have := Real.pi_ne_zero; positivity
     rw [scq_floor_duration Ω _ _ hΩ0 hf ha, scq_rotArea_eq, scq_windowTmax_eq]
